@@ -144,6 +144,8 @@ def check_R(ctx, facts):
 
 def check(ctx):
     facts = ctx.facts('prod')
+    import versions_abs as _va
+    _va.check_forgiveness_value(ctx, facts, 'C04.F')      # (round 8, C01i) the forgiveness period of the non-test build is the stated hour
     # PURE (round 8, C04h: the mutators dropped operations stamped too far ahead of the replica's wall clock): set operations read no ambient input
     import purity
     purity.check_pure_core(ctx, facts, 'C04.PURE')
@@ -173,6 +175,17 @@ def check(ctx):
         if not versions_abs.check_versions(ctx, facts, 'C04.VSEM'):
             n = lww.check_bodies(ctx, facts, 'C04.L', [stamp], 'stamp update')
             ctx.floor('C04.L', 'survivor guards in the per-source stamp update', n, 1)
+            # (round 8, C04i) the prediction will_apply makes rests on the purge cut-off being the MINIMUM over all sources minus the forgiveness
+            # period: where the version-vector summary declines, the structural clauses of the cut-off (C08.P3) decide under C04 as well
+            import engine as _eng
+            import c08 as _c08
+            sub = _eng.Ctx(ctx.facts_dir, ctx.tier)
+            sub._facts = ctx._facts
+            _c08.check(sub)
+            for o in sub.obs:
+                if o.rule == 'C08.P3':
+                    o.rule = 'C04.P3'
+                    ctx.obs.append(o)
     else:
         n = lww.check_bodies(ctx, facts, 'C04.L', roots, 'mutators')
         ctx.floor('C04.L', 'survivor guards in the mutators', n, 5)
